@@ -729,6 +729,13 @@ class SimplifyContainers(visitors.Visitor):
   def VisitGenericType(self, t):
     return self._Simplify(t)
 
+  def VisitUnionType(self, union):
+    # Simplifying the members can make them coincide (e.g. Union[List[Any], list]);
+    # the rebuilt union then has a single member. Return that member itself.
+    if len(union.type_list) == 1:
+      return union.type_list[0]
+    return union
+
 
 class TypeParameterScope(visitors.Visitor):
   """Common superclass for optimizations that track type parameters."""
